@@ -149,6 +149,47 @@ def unknown_typed(max_size=6, xml_safe=False):
     return st.tuples(strings(max_size, xml_safe), st.sampled_from(UNKNOWN_DT)).map(lambda p: ["l", p[0], None, p[1]])
 
 
+# well-formed XML content typed rdf:XMLLiteral: 1-3 sibling elements, each declaring its namespace itself (the same namespace may be
+# declared on several siblings), children in the scope of their parent; no comments, no prefixes that only attributes use
+_XML_TEXT = ["t", "a b", "\u00e9\U0001F600", "&amp;", "&lt;x&gt;", "", " "]
+_XML_NS = ["http://www.w3.org/1999/xhtml", "http://ex.org/ns#"]
+
+
+@st.composite
+def xml_fragments(draw):
+    def element(kind, ns, depth):
+        name = {"plain": "a", "default": "p", "prefixed": "x:e"}[kind]
+        attrs = draw(st.sampled_from(["", "", ' b="1"', ' b="1" c="&amp;2"']))
+        kids = []
+        for _ in range(draw(st.integers(0, 2))):
+            if depth > 0 and draw(st.booleans()):
+                kids.append(element(kind, None, depth - 1))
+            else:
+                kids.append(draw(st.sampled_from(_XML_TEXT)))
+        decl = "" if ns is None else (f' xmlns="{ns}"' if kind == "default" else (f' xmlns:x="{ns}"' if kind == "prefixed" else ""))
+        body = "".join(kids)
+        return f"<{name}{decl}{attrs}>{body}</{name}>" if body else f"<{name}{decl}{attrs}/>"
+    parts = []
+    for _ in range(draw(st.integers(1, 3))):
+        kind = draw(st.sampled_from(["plain", "default", "default", "prefixed"]))
+        parts.append(element(kind, draw(st.sampled_from(_XML_NS)), 1))
+        if draw(st.integers(0, 3)) == 0:
+            parts.append(draw(st.sampled_from(["t", " "])))
+    return ["l", "".join(parts), None, RDFNS + "XMLLiteral"]
+
+
+def wellformed_xml_fragment(lex):
+    """content that rdf:parseType="Literal" can carry as it is (used to admit rdf:XMLLiteral terms to the RDF/XML legs)"""
+    if "<!--" in lex or "<?" in lex or "<!" in lex:
+        return False
+    try:
+        import xml.dom.minidom
+        xml.dom.minidom.parseString("<r>" + lex + "</r>")
+        return True
+    except Exception:  # noqa: BLE001
+        return False
+
+
 def xsd_string_literals(max_size=6, xml_safe=False):
     return strings(max_size, xml_safe).map(lambda s: ["l", s, None, XSD + "string"])
 
@@ -157,6 +198,7 @@ def literals(xml_safe=False, noncanon=False, invalid=False, unknown=True):
     opts = [plain_literals(xml_safe=xml_safe), lang_literals(xml_safe=xml_safe), typed_canon(), xsd_string_literals(xml_safe=xml_safe)]
     if unknown:
         opts.append(unknown_typed(xml_safe=xml_safe))
+        opts.append(xml_fragments())
     if noncanon:
         opts.append(typed_noncanon())
     if invalid:
